@@ -12,7 +12,7 @@ open Srad.Eon.P20
 hand-over made through a `try_` call ever waits (parks) -/
 theorem C20_try_calls_never_wait (cd : Nat) (acts : List Act) (s : St) (tr : List Obs)
     (h : runActs (init cd) acts = some (s, tr)) : tryOk tr = true := by
-  sorry
+  exact try_calls_never_wait cd acts s tr h
 
 /-- a `try_` publish never parks: its task finishes in the very step that hands the call over -/
 theorem C20_try_publish_returns_at_once (s : St) (j : Nat) (t : PubTarget) (n : Nat) (dec : Dec)
@@ -20,7 +20,7 @@ theorem C20_try_publish_returns_at_once (s : St) (j : Nat) (t : PubTarget) (n : 
     (hu : s.ucalls.find? (·.j == j) = some { j := j, kind := .pub t true n, pc := .start })
     (h : (step s (.user j) dec)[k]? = some (s', o)) :
     ∃ r, o.getLast? = some (.ures j r) ∧ (s'.ucalls.find? (·.j == j)).map (·.pc) = some .done := by
-  sorry
+  exact try_publish_returns_at_once s j t n dec k s' o hu h
 
 /-- cancel while running: the first step hands over exactly one NDEATH carrying the current bdSeq
 through a non-blocking call and marks the node as stopping; cancel while not running does
@@ -31,20 +31,20 @@ theorem C20_cancel_ndeath (s : St) (j : Nat) (dec : Dec) (k : Nat) (s' : St) (o 
     (s.running = true → ∃ dc, o = [.call s.calls.length .ndeath none none (some s.bdseq) true dc] ∧
         s'.stopping = true) ∧
     (s.running = false → o = [.ures j .cancelled] ∧ s'.calls = s.calls) := by
-  sorry
+  exact cancel_ndeath s j dec k s' o hu h
 
 /-- … followed, once the stop signal is queued, by the disconnect (also non-blocking) -/
 theorem C20_cancel_disconnect (s : St) (j : Nat) (dec : Dec) (k : Nat) (s' : St) (o : List Obs)
     (hu : s.ucalls.find? (·.j == j) = some { j := j, kind := .cancel, pc := .cancelDisc })
     (h : (step s (.user j) dec)[k]? = some (s', o)) :
     ∃ dc, o = [.call s.calls.length .disconnect none none none true dc, .ures j .cancelled] := by
-  sorry
+  exact cancel_disconnect s j dec k s' o hu h
 
 /-- once the run loop has returned the node is offline, unbirthed and not running -/
 theorem C20_stopped_is_offline (cd : Nat) (acts : List Act) (s : St) (tr : List Obs)
     (h : runActs (init cd) acts = some (s, tr)) (hd : s.loop = .done) :
     s.online = false ∧ s.birthed = false ∧ s.running = false := by
-  sorry
+  exact stopped_is_offline cd acts s tr h hd
 
 /-- … and stays so: from then on, whatever happens (new events, publishes through any handle,
 cancels, device requests, resolutions), no sequence-bearing message, no SUB, no NBIRTH and no
@@ -56,7 +56,7 @@ theorem C20_nothing_after_stop (cd : Nat) (acts more : List Act) (s s' : St) (tr
     (h' : runActs s more = some (s', tr')) :
     (∀ o ∈ tr', ∀ id k dv sq bd t dc, o = Obs.call id k dv sq bd t dc → k = .disconnect) ∧
     s'.online = false ∧ s'.birthed = false := by
-  sorry
+  exact nothing_after_stop cd acts more s s' tr tr' h hd h'
 
 /-- **Termination, partial.** Once cancel has signalled the stop, if no client call stays parked,
 no user callback stays parked and the 1 s timer has elapsed, the run loop can always finish: there
@@ -73,6 +73,6 @@ theorem C20_termination_partial (cd : Nat) (acts : List Act) (s : St) (tr : List
     (htimer : ∀ dl, s.stopDeadline = some dl → dl ≤ s.wall) :
     ∃ sched s' tr', (∀ a ∈ sched, (∃ t dec k, a = Act.task t dec k) ∨ (∃ ms, a = Act.stim (.advance ms))) ∧
       runActs s sched = some (s', tr') ∧ s'.loop = .done := by
-  sorry
+  exact termination_partial cd acts s tr h hstop hstarted hnopark hcb htimer
 
 end Srad.Eon
